@@ -27,6 +27,13 @@ ANCHORS = [
     'io.hdf5._MeshIO_HDF5._h5_load',
 ]   # functions whose code the property is anchored in (mutation analysis, evidence)
 
+AUTOMUT_TRIAGE = [
+    (r"Mesh\.sel$", r"dtype, type\(.*attribute (pmin->pmax|pmax->pmin)", "equivalent: both corners of a region have one dtype (np.minimum/np.maximum of the same pair)"),
+    (r"subregions\.setter$", r"\"default\" in subregions", "only a warning about the special name; nothing about containment or alignment"),
+    (r"_subregions$", r"drop keyword (encoding|mode)=", "equivalent on this platform (UTF-8 default; 'r' is open()'s default); the write "
+     "mode of the writer IS checked"),
+]
+
 
 def run(chk):
     repo = chk.repo
@@ -43,6 +50,12 @@ def d1_setter(chk, repo):
                        "on-the-lattice are each tested with a raise for every candidate and all tests precede the single store, so "
                        "a rejected assignment keeps the previous subregions; stored regions are re-created with the mesh's dims, "
                        "units and tolerance")
+    from ..lib import cond_equiv, path_term
+    sv = FV(repo, "mesh.Mesh.subregions.setter")
+    for st in sv.stmts():
+        if isinstance(st, ast.Assign) and isinstance(st.targets[0], ast.Name) and isinstance(st.value, ast.Dict) and not st.value.keys:
+            chk.ob("mesh.Mesh.subregions.setter::empty-iff-none", cond_equiv(sv, path_term(sv, st), sv.spec("subregions is None")),
+                   "C14.D1", f"`{sv.src(st)}` under {sv.show(path_term(sv, st))}: given subregions must not be replaced by {{}}", sv.f, st)
     writers = []
     for fi in repo.funcs.values():
         for st in walk_stmts(fi.node.body):
@@ -118,8 +131,11 @@ def d3_transformations(chk, repo):
                        "selection keeps exactly the overlapping subregions, clipped to the selection (C07.D3 rules); the mesh of a "
                        "named subregion has that subregion as region and the parent's cell")
     geom.mesh_siblings(chk, "C14")
+    geom.affine_maps(chk, "C14")       # the step itself (keeps n and bc: otherwise the cell the subregions are measured in changes)
     c07.d3_mesh_sel(chk, repo)
+    c07.d5_getitem(chk, repo)          # mesh[region]: what mesh[name] delegates to
     c07.d8_wiring_and_dispatch(chk, repo)
+    c07.corner_copies_hold_floats(chk, repo, "C14", ["mesh.Mesh.sel"], floor=4)
     v = FV(repo, "mesh.Mesh.__getitem__")
     news = cm.returned_news(v, cls=MESH)
     byname = [(r, a) for r, a in news if a.get("region") is not None and v.eq(a["region"], v.spec("self.subregions[item]"))]
@@ -142,6 +158,10 @@ def d4_is_aligned(chk, repo):
         rv = v.ev.term(s.body[-1].value, at=s.body[-1]) if s.body[-1].value is not None else None
         if v.eq(ct, v.spec("not np.allclose(self.cell, other.cell, atol=tolerance)")) and rv is not None and is_const(v.ctx, rv, False):
             okc = True
+    w = FV(repo, "mesh.Mesh.is_aligned")
+    for text, key in (("not isinstance(other, df.Mesh)", "other-is-a-mesh"), ("not isinstance(tolerance, numbers.Real)", "real-tolerance")):
+        okg, det = w.guard(text, exc=("TypeError",))
+        chk.ob(f"mesh.Mesh.is_aligned::refuses::{key}", okg, "C14.D4", det, w.f)
     chk.ob("mesh.Mesh.is_aligned::cells-compared", okc, "C14.D4",
            "different cell sizes (beyond the tolerance) must give False", v.f)
     loops = [s for s in v.stmts() if isinstance(s, ast.For)]
@@ -219,6 +239,8 @@ def d5_persistence(chk, repo):
     chk.ob("io._MeshIO::side-car-name", uses and fn.eq(t, fn.spec("f'{str(filename)}.subregions.json'")), "C14.D5",
            "both directions must use <file>.subregions.json", fn.f, r)
     # HDF5 subregions (rules shared with C10)
-    from . import c10
+    from . import c10, c09
     c10.d1_mesh(chk, repo)
     c10.d4_dtypes(chk, repo)
+    c10.d7_conditions(chk, repo)
+    c09.d9_sidecar(chk, repo)
